@@ -336,8 +336,13 @@ def _discharge(ob, facts, goal, t0, timeout_ms, use_cvc5, both, small_terms, ris
     else:
         ob.verdict = "undecided"
         ob.note = "z3: %s" % s.reason_unknown()
+        # the Debian z3 4.8.12 binary first: it decides many lambda / array goals in milliseconds on which 5.1 times out
+        if z3_cli_check(s.to_smt2(), min(timeout_ms, 4000)) == "unsat":
+            ob.verdict, ob.backend = "proved", "z3-4.8.12"
         # second attempt: arithmetic-purifying tactic (decides the nonlinear real goals quickly)
         try:
+            if ob.verdict != "undecided":
+                raise z3.Z3Exception("decided")
             t = z3.Then("simplify", "solve-eqs", "purify-arith", "smt").solver()
             t.set("timeout", timeout_ms)
             for f in facts:
@@ -359,6 +364,12 @@ def _discharge(ob, facts, goal, t0, timeout_ms, use_cvc5, both, small_terms, ris
                 ob.verdict, ob.backend = "proved", "z3"
             elif r == z3.sat:
                 ob.verdict, ob.backend, ob.model = "refuted", "z3", s.model()
+        if ob.verdict == "undecided":
+            # second z3 (the Debian 4.8.12 binary): a different code base for lambdas / arrays; only its 'unsat' is used
+            # (no model comes back through this route, so 'sat' stays undecided)
+            v = z3_cli_check(s.to_smt2(), timeout_ms)
+            if v == "unsat":
+                ob.verdict, ob.backend = "proved", "z3-4.8.12"
         if ob.verdict == "undecided" and use_cvc5:
             v = cvc5_check(s.to_smt2(), timeout_ms)
             if v == "unsat":
@@ -390,6 +401,31 @@ def _discharge(ob, facts, goal, t0, timeout_ms, use_cvc5, both, small_terms, ris
         ob.cross = v
     ob.time = time.time() - t0
     return ob
+
+
+Z3_OLD = "/usr/bin/z3"
+
+
+def z3_cli_check(smt2, timeout_ms):
+    if not os.path.exists(Z3_OLD):
+        return "unknown"
+    with tempfile.NamedTemporaryFile("w", suffix=".smt2", delete=False) as fh:
+        fh.write(smt2)
+        path = fh.name
+    try:
+        p = subprocess.run([Z3_OLD, "-T:%d" % max(1, timeout_ms // 1000), path], capture_output=True, text=True,
+                           timeout=timeout_ms / 1000.0 + 5)
+        out = p.stdout.strip().splitlines()
+        if out and out[0] in ("sat", "unsat"):
+            return out[0]
+        return "unknown"
+    except Exception:
+        return "unknown"
+    finally:
+        try:
+            os.unlink(path)
+        except OSError:
+            pass
 
 
 def cvc5_check(smt2, timeout_ms):
